@@ -107,7 +107,10 @@ Definition dyad_of (id : list Z) : option (val -> val -> res val) :=
   if is "Ldec" then Some (fun x y => bindr (arith Z.mul x (VInt 10)) (fun t => arith Z.add t y)) else
   if is "Lsnd" then Some (fun _ y => Ok y) else
   if is "Lfst" then Some (fun x _ => Ok x) else
-  if is "Lnest" then Some (fun x y => join (v_list x) y) else
+  if is "Lnest" then Some (fun x y => match x with
+                                     | VList l => if existsb is_list l then Err E_UNMODELLED else join (v_list x) y   (* Join of a rank-3 and a rank-2 array is C01's *)
+                                     | _ => join (v_list x) y
+                                     end) else
   if is "proj" || is "nproj" then Some (fun x y => bindr (arith Z.mul y (VInt 2)) (fun t => arith Z.add x t)) else
   if is "py" then Some (fun x y => bindr (arith Z.mul x (VInt 2)) (fun t => arith Z.add t y)) else
   None.
@@ -131,7 +134,7 @@ Definition v_reverse (x : val) : res val :=
 Definition v_first (x : val) : res val :=
   match x with
   | VStr (c :: _) => Ok (VStr [c])         (* First of a string / of a character is a one-character string here *)
-  | VChar c => Ok (VStr [c])
+  | VChar c => Err E_UNMODELLED            (* depends on which of klongpy's two KGChar classes the character has *)
   | VList (v :: _) => Ok v
   | VDict _ => Err E_UNMODELLED
   | other => Ok other
@@ -155,7 +158,7 @@ Definition monad_of (id : list Z) : option (val -> res val) :=
   if is "Lid" then Some (fun x => Ok x) else
   if is "Lone" then Some (fun _ => Ok (VInt 1)) else
   if is "Ldbl" then Some (fun x => arith Z.mul x (VInt 2)) else
-  if is "Lcap" then Some (fun x => match x with VInt z => Ok (VInt (if Z.gtb z 5 then z else z + 1)) | _ => Err E_UNMODELLED end) else
+  if is "Lcap" || is "pycap" then Some (fun x => match x with VInt z => Ok (VInt (if Z.gtb z 5 then z else z + 1)) | _ => Err E_UNMODELLED end) else
   if is "Lhalf" then Some (fun x => match x with VInt z => if Z.leb 0 z then Ok (VInt (z / 2)) else Err E_UNMODELLED | _ => Err E_UNMODELLED end) else
   if is "Lcons" then Some (fun x => join (VInt 1) x) else
   if is "Lflat" then Some v_flat else
